@@ -24,3 +24,149 @@ Definition class_used (sites : list (string * string * N)) : bool :=
              existsb (fun s => match s with (f', k', n') =>
                         (String.eqb f f' && String.eqb k k' && (n =? n'))%bool end) sites end)
           Model.SafetySites.site_class.
+
+(* ---------------------------------------------------------------------------------------------
+   The JWT attribute builder over ARBITRARY JSON values (jwt.go:71 jwtAttributes and the converters
+   str :145, sigAlg :111, unixTime :159).  Model/Jwt.v (C18) keeps arrays and objects opaque because the
+   converters never look inside them; here the decoded value is the whole tree that encoding/json builds
+   for an `any` (string, float64, bool, nil, []any, map[string]any), and the Go forms that can and cannot
+   panic are told apart:
+     s, ok := o.(string)      comma-ok assertion: never panics              -> [as_string]
+     switch v := o.(type)     type switch: never panics                     -> match
+     v[i].(string)            single-value assertion: run-time panic when the dynamic type differs
+                                                                            -> [must_string]
+   A converter name of the regenerated table (gen/JwtParams.v) that is not one of the three modelled
+   functions is [TUnmodelled]: the model answers Panic for it, so the totality theorem does not survive a
+   new converter that nobody has looked at. *)
+From WI Require Model.Jwt Model.Base64 gen.JwtParams.
+
+Inductive json : Type :=
+| JsStr (s : bytes)
+| JsNum (m e : Z)                          (* float64 with the exact value m * 2^e *)
+| JsBool (b : bool)
+| JsNull
+| JsArr (l : list json)                    (* []any *)
+| JsObj (m : list (bytes * json)).         (* map[string]any: keys pairwise distinct *)
+
+Definition jsmap := list (bytes * json).
+
+(* what a type switch / comma-ok assertion on the value can see *)
+Definition shallow (v : json) : Model.Jwt.jvalue :=
+  match v with
+  | JsStr s => Model.Jwt.JStr s
+  | JsNum m e => Model.Jwt.JNum m e
+  | JsBool b => Model.Jwt.JBool b
+  | JsNull => Model.Jwt.JNull
+  | JsArr _ => Model.Jwt.JArr
+  | JsObj _ => Model.Jwt.JObj
+  end.
+Definition shallow_map (m : jsmap) : Model.Jwt.jmap := map (fun kv => (fst kv, shallow (snd kv))) m.
+
+Fixpoint jslookup (k : bytes) (m : jsmap) : option json :=
+  match m with
+  | [] => None
+  | (k', v) :: r => if bytes_eqb k k' then Some v else jslookup k r
+  end.
+
+(* s, ok := o.(string) *)
+Definition as_string (v : json) : option bytes := match v with JsStr s => Some s | _ => None end.
+(* o.(string) *)
+Definition must_string (v : json) : result bytes :=
+  match v with JsStr s => Ok s | _ => Panic "interface conversion: interface {} is not string" end.
+
+Inductive tconv := TStr | TAlg | TTime | TUnmodelled
+                 | TListUnchecked       (* NOT in the repository: a converter that joins the elements of an array
+                                           taking each with v[i].(string) - the shape of defect this family of
+                                           inputs is generated for *)
+                 | TListChecked.        (* the same with s, ok := v[i].(string) *)
+
+Definition tconv_of_name (n : bytes) : tconv :=
+  if bytes_eqb n (bs "str") then TStr
+  else if bytes_eqb n (bs "sigAlg") then TAlg
+  else if bytes_eqb n (bs "unixTime") then TTime
+  else TUnmodelled.
+
+Definition modelled (c : tconv) : bool := match c with TUnmodelled | TListUnchecked => false | _ => true end.
+
+Fixpoint join_with (sep : bytes) (l : list bytes) : bytes :=
+  match l with
+  | [] => []
+  | [x] => x
+  | x :: r => x ++ sep ++ join_with sep r
+  end.
+
+Fixpoint all_must_string (l : list json) : result (list bytes) :=
+  match l with
+  | [] => Ok []
+  | v :: r => let* s := must_string v in let* rs := all_must_string r in Ok (s :: rs)
+  end.
+Fixpoint all_as_string (l : list json) : option (list bytes) :=
+  match l with
+  | [] => Some []
+  | v :: r => match as_string v, all_as_string r with Some s, Some rs => Some (s :: rs) | _, _ => None end
+  end.
+
+(* the converters on the full value: (shown?, text) or a panic *)
+Definition convert_tree (c : tconv) (v : json) : result (option bytes) :=
+  match c with
+  | TStr => Ok (Model.Jwt.convert Model.Jwt.CStr (shallow v))
+  | TAlg => Ok (Model.Jwt.convert Model.Jwt.CAlg (shallow v))
+  | TTime => Ok (Model.Jwt.convert Model.Jwt.CTime (shallow v))
+  | TUnmodelled => Panic "converter not modelled"
+  | TListUnchecked =>
+      match v with
+      | JsStr s => Ok (Some s)
+      | JsArr [] => Ok None
+      | JsArr l => let* ss := all_must_string l in Ok (Some (join_with (bs ", ") ss))
+      | _ => Ok None
+      end
+  | TListChecked =>
+      match v with
+      | JsStr s => Ok (Some s)
+      | JsArr [] => Ok None
+      | JsArr l => match all_as_string l with Some ss => Ok (Some (join_with (bs ", ") ss)) | None => Ok None end
+      | _ => Ok None
+      end
+  end.
+
+Record tparam := mktparam { tp_key : bytes; tp_label : bytes; tp_conv : tconv }.
+Definition tparams_of (t : list (bytes * bytes * bytes)) : list tparam :=
+  map (fun r => match r with (k, l, c) => mktparam k l (tconv_of_name c) end) t.
+Definition jwt_tparams : list tparam := tparams_of gen.JwtParams.table.
+
+(* jwt.go:71 jwtAttributes: `for _, param := range jwtParams { if v, ok := m[param.name]; ok { if value, ok :=
+   param.convert(v); ok { attrs = append(...) } } }` - a panic of a converter ends the whole call *)
+Fixpoint attrs_tree (t : list tparam) (m : jsmap) : result (list (bytes * bytes)) :=
+  match t with
+  | [] => Ok []
+  | p :: r =>
+      let* here := match jslookup (tp_key p) m with
+                   | Some v => let* o := convert_tree (tp_conv p) v in
+                               Ok (match o with Some s => [(tp_label p, s)] | None => [] end)
+                   | None => Ok []
+                   end in
+      let* rest := attrs_tree r m in
+      Ok (here ++ rest)
+  end.
+
+(* parsers.go:75 JWTData after ParseJWT, on the decoded header and payload trees *)
+Definition describe_tree (t : list tparam) (h p : jsmap) (sig : bytes) : result info :=
+  let* ha := attrs_tree t h in
+  let* pa := attrs_tree t p in
+  Ok (Info Model.Jwt.jwt_desc (ha ++ pa ++ [(Model.Jwt.sig_label, Model.Base64.encode Model.Base64.RawURL sig)]) []).
+
+(* the table of Model/Jwt.v seen through the same names *)
+Definition tconv_of_conv (c : Model.Jwt.conv) : tconv :=
+  match c with Model.Jwt.CStr => TStr | Model.Jwt.CAlg => TAlg | Model.Jwt.CTime => TTime | Model.Jwt.CUnknown => TUnmodelled end.
+
+(* ---------------------------------------------------------------------------------------------
+   The uncompressed base point of explicit EC parameters (curves.go:44-45).  The repository compares
+   append(a.BaseX, a.BaseY...) with b.Base[1:] ([uncompressed_appended], the form modelled in Model/Curve.v and
+   proved panic-free for every base point by C16).  NOT in the repository: comparing the two halves in place,
+     x, y := b.Base[1:1+len(a.BaseX)], b.Base[1+len(a.BaseX):]
+   ([uncompressed_sliced]) - the shape of defect the short-base-point inputs are generated for: the slice
+   expression panics when the point is shorter than 1 + len(a.BaseX). *)
+Definition uncompressed_appended (gx gy base : bytes) : bool := bytes_eqb (gx ++ gy) (tl base).
+Definition uncompressed_sliced (gx gy base : bytes) : result bool :=
+  if (length base <? 1 + length gx)%nat then Panic "slice bounds out of range"
+  else Ok (bytes_eqb gx (firstn (length gx) (tl base)) && bytes_eqb gy (skipn (length gx) (tl base))).
